@@ -1263,6 +1263,12 @@ Section LoopCase.
     - eapply post_mono; [| |exact PV]; [|discriminate]. apply ext_edges, (R_ext _ _ _ RL).
   Qed.
 
+  Lemma lp_enter sg : at_cur g st sg -> P g LC 0 sg.
+  Proof.
+    intros (b & Hc & HP). eapply P_edge_ext; [|apply lp_E2|exact HP].
+    unfold Y2, nextblock, nextblock_from, link_cur. simpl. rewrite Hc. simpl. auto.
+  Qed.
+
   Lemma lp_excs5 : excs Y5 = excs st.
   Proof.
     assert (H : ceq Y3 Y5) by (unfold Y5, Y4; ceq_auto). destruct H as [_ H]. rewrite H.
@@ -1369,20 +1375,9 @@ Proof.
 Qed.
 
 (* entering the loop statement *)
-Lemma loop_enter f c tg body h el st g sg : inv st -> ext (visit true (Loop f c tg body h el) st) g ->
-  at_cur g st sg -> P g (nb st) 0 sg.
-Proof.
-  intros Hi He (b & Hc & HP). eapply P_edge_ext; [|exact He|exact HP].
-  rewrite lp_final. simpl. apply (ext_edges (nextblock st)).
-  - eapply ext_trans; [|apply (R_ext 0), lp_R89; auto; lia].
-    eapply ext_trans; [|apply (R_ext 0), lp_R78; auto; lia].
-    eapply ext_trans; [|apply (R_ext 0), lp_R67; auto; lia].
-    eapply ext_trans; [|apply (R_ext 0), lp_R56; auto; lia].
-    eapply ext_trans; [|apply (R_ext 0), lp_R45; auto; lia].
-    eapply ext_trans; [|apply (R_ext 0), lp_R24; auto; lia].
-    apply (R_ext 0). apply R_newblock, R0. exact (R_inv 0 st _ (R_nextblock _ _ _ (R0 _ Hi))).
-  - unfold nextblock, nextblock_from, link_cur. simpl. rewrite Hc. simpl. auto.
-Qed.
+Lemma loop_enter f c tg body h el st g sg : inv st -> wf (inl st) (Loop f c tg body h el) = true ->
+  ext (visit true (Loop f c tg body h el) st) g -> at_cur g st sg -> P g (nb st) 0 sg.
+Proof. intros Hi Hw He HA. eapply lp_enter; eauto. Qed.
 
 Lemma sim_while c tg body h el sg tr o s2 : sim_loop false c tg body h el sg tr o s2 ->
   sim_stmt (Loop false c tg body h el) sg tr o s2.
@@ -1398,7 +1393,185 @@ Qed.
 Lemma sim_for c tg body h el sg t1 t2 o s2 : eval_refs sg c t1 true ->
   sim_loop true c tg body h el sg t2 o s2 -> sim_stmt (Loop true c tg body h el) sg (t1 ++ t2) o s2.
 Proof.
-  intros Hev IH st g Hi Hw He HA HK. pose proof (loop_enter _ _ _ _ _ _ _ _ _ Hi He HA) as HP.
+  intros Hev IH st g Hi Hw He HA HK. pose proof (loop_enter _ _ _ _ _ _ _ _ _ Hi Hw He HA) as HP.
   destruct (IH st g Hi Hw He HP HK) as [J2 P2]. split; auto.
   apply Forall_app; split; auto. eapply lp_head_ev; eauto.
+Qed.
+
+(* ------------------------------------------------------------------ except clauses *)
+Definition posth (g st st' : bst) (N : nat) (o : out) (sg : state) : Prop :=
+  match o with
+  | ONorm => Kexc g (excs st) sg /\ P g N 0 sg /\ has_parents N st' = true
+  | _ => post g st st' o sg
+  end.
+
+Definition sim_h (hs : handlers) (sg : state) (tr : list event) (o : out) (s2 : state) : Prop :=
+  forall st g N E, inv st -> wf_h (inl st) hs = true -> E < nb st -> len st E = 0 ->
+    ext (snd (visit_h true hs N E st)) g -> P g E 0 sg -> Kexc g (excs st) sg ->
+    Forall (justified g) tr /\ posth g st (snd (visit_h true hs N E st)) N o s2.
+
+Lemma visit_h_R hs n st X N E : n <= E -> E < nb X -> R n st X ->
+  R n st (snd (visit_h true hs N E X)) /\ n <= fst (visit_h true hs N E X) /\
+  fst (visit_h true hs N E X) < nb (snd (visit_h true hs N E X)).
+Proof. apply (proj2 (visit_R true)). Qed.
+
+Lemma visit_h_ceq hs X N E : ceq X (snd (visit_h true hs N E X)).
+Proof. apply (proj2 (visit_ceq true)). Qed.
+
+Section HandlerCase.
+  Variables (hastg : bool) (tl te : nat) (hb : stmt) (rest : handlers).
+  Variables (st g : bst) (N E : nat).
+  Hypothesis Hi : inv st.
+  Hypothesis HE : E < nb st.
+  Hypothesis HL : len st E = 0.
+
+  Local Definition H1 := set_cur (Some E) st.
+  Local Definition E2 := nb st.
+  Local Definition H3 := add_edge E E2 (newblock H1).
+  Local Definition H4 := nextblock H3.
+  Local Definition H5 := if hastg then v_asg tl te H4 else H4.
+  Local Definition H6 := link_cur N (visit true hb H5).
+
+  Lemma hc_final : visit_h true (HCons hastg tl te hb rest) N E st = visit_h true rest N E2 H6.
+  Proof. unfold H6, H5, H4, H3, E2, H1. reflexivity. Qed.
+
+  Lemma hc_I3 : inv H3.
+  Proof. apply (R_inv 0 st). unfold H3, H1. apply R_add_edge, R_newblock, R_set_cur_some; [lia|exact HE|apply R0, Hi]. Qed.
+  Lemma hc_nb3 : nb H3 = S E2. Proof. reflexivity. Qed.
+  Lemma hc_R34 n : n <= nb H3 -> R n H3 H4.
+  Proof. intros. apply R_from; [intros Z HZ; unfold H4; RV|exact hc_I3|auto]. Qed.
+  Lemma hc_I4 : inv H4. Proof. exact (R_inv _ _ _ (hc_R34 0 ltac:(lia))). Qed.
+  Lemma hc_nb4 : nb H4 = S (nb H3). Proof. unfold H4. apply nb_nextblock. Qed.
+  Lemma hc_R45 n : n <= nb H4 -> R n H4 H5.
+  Proof. intros. apply R_from; [intros Z HZ; unfold H5; destruct hastg; RV|exact hc_I4|auto]. Qed.
+  Lemma hc_I5 : inv H5. Proof. exact (R_inv _ _ _ (hc_R45 0 ltac:(lia))). Qed.
+  Lemma hc_nb5 : nb H4 <= nb H5. Proof. apply (R_nb 0 H4 H5), hc_R45. lia. Qed.
+  Lemma hc_R56 n : n <= nb H5 -> R n H5 H6.
+  Proof. intros. apply R_from; [intros Z HZ; unfold H6; RV|exact hc_I5|auto]. Qed.
+  Lemma hc_I6 : inv H6. Proof. exact (R_inv _ _ _ (hc_R56 0 ltac:(lia))). Qed.
+  Lemma hc_nb6 : nb H5 <= nb H6. Proof. apply (R_nb 0 H5 H6), hc_R56. lia. Qed.
+
+  Lemma hc_E2_lt : E2 < nb H6.
+  Proof. pose proof hc_nb3. pose proof hc_nb4. pose proof hc_nb5. pose proof hc_nb6. lia. Qed.
+
+  Lemma hc_lenE2 : len H6 E2 = 0.
+  Proof.
+    pose proof hc_nb3. pose proof hc_nb4. pose proof hc_nb5.
+    assert (H36 : R (S E2) H3 H6).
+    { eapply R_trans; [apply hc_R34; lia|]. eapply R_trans; [apply hc_R45; lia|apply hc_R56; lia]. }
+    rewrite (len_frame _ _ _ E2 H36); [|lia|].
+    - change (len H3 E2) with (len st E2). apply len_fresh; auto.
+    - unfold H3, H1, E2. simpl. intros Q. inversion Q. lia.
+  Qed.
+
+  Lemma hc_ceq6 : ceq st H6.
+  Proof. unfold H6, H5, H4, H3, H1. destruct hastg; ceq_auto.
+    - eapply ceq_trans; [|apply ceq_v_asg]. ceq_auto.
+  Qed.
+
+  Hypothesis He : ext (snd (visit_h true (HCons hastg tl te hb rest) N E st)) g.
+
+  Lemma hc_E6 : ext H6 g.
+  Proof.
+    rewrite hc_final in He. eapply ext_back; [|exact He].
+    apply (visit_h_R rest 0 H6 H6 N E2); [lia|apply hc_E2_lt|apply R0, hc_I6].
+  Qed.
+  Lemma hc_E5 : ext H5 g. Proof. eapply ext_back; [apply (hc_R56 0); lia|apply hc_E6]. Qed.
+  Lemma hc_E4 : ext H4 g. Proof. eapply ext_back; [apply (hc_R45 0); lia|apply hc_E5]. Qed.
+  Lemma hc_E3 : ext H3 g. Proof. eapply ext_back; [apply (hc_R34 0); lia|apply hc_E4]. Qed.
+
+  (* the exception also reaches the next clause *)
+  Lemma hc_next sg : P g E 0 sg -> P g E2 0 sg.
+  Proof.
+    intros HP. eapply P_edge_ext; [|apply hc_E3|exact HP]. unfold H3. simpl. left.
+    change (len (newblock H1) E) with (len st E). now rewrite HL.
+  Qed.
+
+  Lemma hc_skip sg tr o s2 : wf_h (inl st) (HCons hastg tl te hb rest) = true ->
+    P g E 0 sg -> Kexc g (excs st) sg -> sim_h rest sg tr o s2 ->
+    Forall (justified g) tr /\ posth g st (snd (visit_h true (HCons hastg tl te hb rest) N E st)) N o s2.
+  Proof.
+    intros Hw HP HK IH. destruct hc_ceq6 as [CL CE].
+    assert (Hw6 : wf_h (inl H6) rest = true).
+    { rewrite (inl_eq H6 st CL). simpl in Hw. apply andb_true_iff in Hw. tauto. }
+    assert (K6 : Kexc g (excs H6) sg) by (rewrite CE; exact HK).
+    pose proof He as He'. rewrite hc_final in He'.
+    destruct (IH H6 g N E2 hc_I6 Hw6 hc_E2_lt hc_lenE2 He' (hc_next sg HP) K6) as [J Q].
+    split; auto. rewrite hc_final. unfold posth in *. destruct o.
+    - rewrite CE in Q. exact Q.
+    - eapply post_ctx; eauto.
+    - eapply post_ctx; eauto.
+    - eapply post_ctx; eauto.
+    - eapply post_ctx; eauto.
+  Qed.
+
+  Lemma hc_match sg tr o s2 : wf_h (inl st) (HCons hastg tl te hb rest) = true ->
+    P g E 0 sg -> Kexc g (excs st) sg ->
+    sim_stmt hb (if hastg then upd sg te true else sg) tr o s2 ->
+    Forall (justified g) tr /\ posth g st (snd (visit_h true (HCons hastg tl te hb rest) N E st)) N o s2.
+  Proof.
+    intros Hw HP HK IH.
+    assert (A3 : at_cur g H3 sg).
+    { exists E. split; [reflexivity|]. change (len H3 E) with (len st E). now rewrite HL. }
+    assert (A4 : at_cur g H4 sg) by (apply at_cur_nextblock; [apply hc_I3|apply hc_E4|exact A3]).
+    assert (C4 : ceq st H4) by (unfold H4, H3, H1; ceq_auto).
+    assert (A5 : at_cur g H5 (if hastg then upd sg te true else sg) /\
+                 Kexc g (excs st) (if hastg then upd sg te true else sg)).
+    { pose proof hc_E5 as E5. unfold H5 in *. destruct (Bool.bool_dec hastg true) as [Q|Q].
+      - rewrite Q in E5 |- *. destruct (v_asg_sound g H4 tl te sg hc_I4 E5 A4) as (A & K & _).
+        destruct C4 as [_ CE4]. rewrite CE4 in K. auto.
+      - apply Bool.not_true_is_false in Q. rewrite Q in E5 |- *. auto. }
+    destruct A5 as [A5 K5].
+    assert (C5 : ceq st H5).
+    { unfold H5. destruct (Bool.bool_dec hastg true) as [Q|Q].
+      - rewrite Q. eapply ceq_trans; [exact C4|apply ceq_v_asg].
+      - apply Bool.not_true_is_false in Q. rewrite Q. exact C4. }
+    destruct C5 as [CL5 CE5].
+    assert (Hw5 : wf (inl H5) hb = true).
+    { rewrite (inl_eq H5 st CL5). simpl in Hw. apply andb_true_iff in Hw. tauto. }
+    assert (K5' : Kexc g (excs H5) (if hastg then upd sg te true else sg)) by (rewrite CE5; exact K5).
+    assert (EV : ext (visit true hb H5) g).
+    { eapply ext_back; [|apply hc_E6]. apply R_link_cur, R0. apply (R_inv 0 H5), visit_R00, hc_I5. }
+    destruct (IH H5 g hc_I5 Hw5 EV A5 K5') as [J Q].
+    split; auto. apply (post_ctx g st H5) in Q; auto.
+    assert (Hincl : incl (eds H6) (eds (snd (visit_h true (HCons hastg tl te hb rest) N E st)))).
+    { rewrite hc_final. apply ext_edges, (R_ext 0).
+      apply (visit_h_R rest 0 H6 H6 N E2); [lia|apply hc_E2_lt|apply R0, hc_I6]. }
+    unfold posth. destruct o.
+    - destruct Q as [KQ AQ]. destruct (link_cur_sound g _ N s2 hc_E6 AQ) as [PN HPn].
+      split; auto. split; auto. eapply hp_mono; [exact Hincl|exact HPn].
+    - eapply post_mono; [|discriminate|exact Q]. eapply incl_tran; [|exact Hincl].
+      apply ext_edges, (R_ext 0), R_link_cur, R0. apply (R_inv 0 H5), visit_R00, hc_I5.
+    - eapply post_mono; [|discriminate|exact Q]. eapply incl_tran; [|exact Hincl].
+      apply ext_edges, (R_ext 0), R_link_cur, R0. apply (R_inv 0 H5), visit_R00, hc_I5.
+    - eapply post_mono; [|discriminate|exact Q]. eapply incl_tran; [|exact Hincl].
+      apply ext_edges, (R_ext 0), R_link_cur, R0. apply (R_inv 0 H5), visit_R00, hc_I5.
+    - eapply post_mono; [|discriminate|exact Q]. eapply incl_tran; [|exact Hincl].
+      apply ext_edges, (R_ext 0), R_link_cur, R0. apply (R_inv 0 H5), visit_R00, hc_I5.
+  Qed.
+End HandlerCase.
+
+Lemma sim_h_nil sg : sim_h HNil sg [] OExc sg.
+Proof. intros st g N E Hi Hw HE HL He HP HK. split; [constructor|]. split; auto. Qed.
+Lemma sim_h_match hastg tl te hb rest sg t o s2 :
+  sim_stmt hb (if hastg then upd sg te true else sg) t o s2 ->
+  sim_h (HCons hastg tl te hb rest) sg t o s2.
+Proof. intros IH st g N E Hi Hw HE HL He HP HK. eapply hc_match; eauto. Qed.
+Lemma sim_h_skip hastg tl te hb rest sg t o s2 : sim_h rest sg t o s2 ->
+  sim_h (HCons hastg tl te hb rest) sg t o s2.
+Proof. intros IH st g N E Hi Hw HE HL He HP HK. eapply hc_skip; eauto. Qed.
+
+(* the chain of clause entry blocks ends in the block that is linked to the enclosing handler *)
+Lemma hwalk g hs : forall st N E sg, inv st -> E < nb st -> len st E = 0 ->
+  ext (snd (visit_h true hs N E st)) g -> P g E 0 sg ->
+  P g (fst (visit_h true hs N E st)) 0 sg /\
+  len (snd (visit_h true hs N E st)) (fst (visit_h true hs N E st)) = 0.
+Proof.
+  induction hs as [|hastg tl te hb rest IH]; intros st N E sg Hi HE HL He HP.
+  - simpl. auto.
+  - rewrite hc_final in *. apply IH; auto.
+    + apply hc_I6; auto.
+    + apply hc_E2_lt; auto.
+    + apply hc_lenE2; auto.
+    + eapply hc_next; eauto. rewrite hc_final. exact He.
 Qed.
